@@ -101,6 +101,7 @@ def run(tier, seed, findings):
     rnd = random.Random(seed)
     for name in SCHEMAS:
         S, O = D.schema(name)
+        after_types = [n for n, nt in O.nodes.items() if not (nt.is_leaf or nt.is_text or nt.has_required_attrs() or n == O.top) and not nt.spec.get("isolating")][:4]
         docs = [d for d in D.corpus(name, 10 if tier == "quick" else 50, seed) if d.content.size <= 30]
         pool = [s for s in D.slice_pool(name, D.corpus(name, 20, seed + 1), rnd, 40 if tier == "quick" else 150) if ops.slice_ok(O, s)]
         nodes = payloads(name, S, O, pool, rnd)
@@ -152,6 +153,17 @@ def run(tier, seed, findings):
                         for depth in (1, 2, 3):
                             if rf.depth - depth + 1 <= dN and structure.can_split(doc, f, depth):
                                 rec.violation("split-crosses", f"can_split(depth={depth}) approves splitting the isolating node at depth {dN}", dict(fn="can_split", schema=name, doc=D.doc_json(doc), pos=f, depth=depth))
+                            # the same question with the types of the nodes after the split given
+                            if rf.depth - depth + 1 <= dN:
+                                for tn in after_types:
+                                    ta = [structure.NodeTypeWithAttrs(S.nodes[tn])] * 1
+                                    try:
+                                        ok_ = structure.can_split(doc, f, depth, ta)
+                                    except Exception:  # noqa: BLE001
+                                        continue  # C12's subject
+                                    if ok_:
+                                        rec.violation("split-crosses", f"can_split(depth={depth}, types_after=[{tn}]) approves splitting the isolating node at depth {dN}",
+                                                      dict(fn="can_split", schema=name, doc=D.doc_json(doc), pos=f, depth=depth, types_after=[tn]))
                     except Exception as e:  # noqa: BLE001
                         rec.count(f"helper raised {type(e).__name__} (C12's subject)")
     return rec.result(
